@@ -216,6 +216,7 @@ def n_field_models(gen):
 
 PROPS.update({
     "C05": {
+        "disagreement_is_failing_input": True,
         "streams": ["fields"],
         "stream_args": {"fields": ["--prop", "C05", "--modelled", "@modelled"]},
         "driver": True,
@@ -262,6 +263,7 @@ PROPS.update({
         "assumptions": ["time and memory bounds, allocator aborts and stack depth are outside the model (labelled partial)"],
     },
     "C04": {
+        "disagreement_is_failing_input": True,
         "streams": ["c04"],
         "driver": True,
         "extractors": ["T6", "T3s"],
